@@ -106,6 +106,8 @@ def handle : List String → Option (List String)
       let pre ← list? pre1? "," (← kv toks "pre")
       let fin ← list? fin1? "," (← kv toks "fin")
       let ents ← list? entry? ";" (← kv toks "ents")
+      let rht := (kv toks "rht") == some "1"
+      let ents := ents.map (retag rht)
       let bad ← match kv toks "bad" with
         | some b => list? Hex.decode "," b
         | none => some []
